@@ -33,10 +33,12 @@ func c09Core(thorough bool) []*TS {
 		tObj(at("a", tMap(tsStr)), at("b", tMap(tsNum))), tObj(at("a", tObj(at("x", tsStr))), at("b", tObj(at("x", tsNum)))),
 		tTuple(tMap(tsStr), tObj(at("x", tsNum))), tList(tMap(tsStr)), tList(tMap(tsNum)),
 		tsCaps0,
+		// width-3 tuples: a nested unification (tuple as list/set of placeholders) with more members than the outer list
+		tTuple(tsStr, tsNum, tsBool), tTuple(tList(tsBool), tsNum, tsStr), tTuple(tsNum, tsBool, tsStr),
 	}
 	if thorough {
 		ts = append(ts,
-			tSet(tList(tsStr)), tSet(tList(tsNum)), tMap(tMap(tsStr)), tMap(tMap(tsNum)), tList(tSet(tsNum)), tTuple(tsStr, tsNum, tsBool), tTuple(tsNum, tsNum, tsNum),
+			tSet(tList(tsStr)), tSet(tList(tsNum)), tMap(tMap(tsStr)), tMap(tMap(tsNum)), tList(tSet(tsNum)), tTuple(tsNum, tsNum, tsNum),
 			tObj(at("a", tsStr), at("b", tsNum), at("c", tsBool)), tObj(at("a", tTuple(tsStr, tsNum))), tObj(at("a", tList(tObj(at("b", tsStr))))),
 			tList(tTuple(tsNum, tsStr)), tMap(tTuple(tsStr, tsNum)), tTuple(tObj(), tObj(at("a", tsStr))), tList(tObj()), tMap(tObj()), tsCaps1,
 		)
@@ -109,6 +111,32 @@ type unifyResult struct {
 	pan   string
 }
 
+// c09Prev is the previous Unify call of this worker, re-asked after the next one.
+var c09Prev struct {
+	tys    []cty.Type
+	unsafe bool
+	sig    string
+	shape  string
+}
+
+func unifySig(r unifyResult) string {
+	if r.pan != "" {
+		return "panic"
+	}
+	if r.ty == cty.NilType {
+		return "no common type"
+	}
+	s := tsOf(r.ty).Canon() + " convs="
+	for _, cv := range r.convs {
+		if cv == nil {
+			s += "-"
+		} else {
+			s += "c"
+		}
+	}
+	return s
+}
+
 func callUnify(types []cty.Type, unsafe bool) (r unifyResult) {
 	defer func() {
 		if x := recover(); x != nil {
@@ -149,6 +177,16 @@ func c09One(u *U, core []*TS, vals [][]cty.Value, idx []int) {
 		}
 		u.Eval(1)
 		r := callUnify(tys, unsafe)
+		// a pure function of its operands: the same answer when asked again, also after an unrelated call
+		if r2 := callUnify(tys, unsafe); unifySig(r2) != unifySig(r) {
+			u.Violation("unify.impure", shape, fmt.Sprintf("Unify[%s](%s) answered %s, then %s for the same types", mode, shape, unifySig(r), unifySig(r2)))
+		}
+		if c09Prev.tys != nil {
+			if rp := callUnify(c09Prev.tys, c09Prev.unsafe); unifySig(rp) != c09Prev.sig {
+				u.Violation("unify.history-dependent", c09Prev.shape, fmt.Sprintf("Unify(%s) answered %s, and after Unify[%s](%s) it answers %s", c09Prev.shape, c09Prev.sig, mode, shape, unifySig(rp)))
+			}
+		}
+		c09Prev.tys, c09Prev.unsafe, c09Prev.sig, c09Prev.shape = tys, unsafe, unifySig(r), shape
 		if r.pan != "" {
 			u.Violation("unify.panics", shape, fmt.Sprintf("Unify[%s](%s) panicked: %s", mode, shape, r.pan))
 			continue
